@@ -21,7 +21,15 @@ pub fn outcome_of(sym: &str, rng: &mut Rng, apps: &[AppSpec]) -> RespSpec {
         "forged" => {
             let (doc, _) = gen_doc(rng, apps, None, true);
             let e = rng.pick(&[EtagSpec::Absent, EtagSpec::FlipSig, EtagSpec::ForeignKey, EtagSpec::OtherBody, EtagSpec::WrongKeyId]).clone();
-            RespSpec::Reply(ReplySpec::ok(BodySpec::Doc(doc)).with_etag(e))
+            let mut rep = ReplySpec::ok(BodySpec::Doc(doc)).with_etag(e);
+            // an unauthenticated error page is an authentication failure like any other: never retried
+            if rng.chance(1, 3) {
+                rep.status = *rng.pick(&[500u16, 503, 502, 400, 404, 302]);
+                if rng.bool() {
+                    rep.body = BodySpec::Raw(b"<html>Service Unavailable</html>".to_vec());
+                }
+            }
+            RespSpec::Reply(rep)
         }
         "garbage" => RespSpec::Reply(ReplySpec::ok(BodySpec::Raw(garbage_body(rng)))),
         _ => {
